@@ -254,6 +254,19 @@ def _verbatim(ctx, loader):
             for rec in roles['record']),
                'with the recorded expiry (%s)' % exp,
                construct='verbatim restore value')
+    # the presence stamp is a fact about the server: it is not rebound
+    # while the records of that server are walked (a stamp cleared for one
+    # record - "its lease ran out" - stays cleared for every later record of
+    # the server, and each of them loses its verbatim restore)
+    if loop is not None:
+        rebinds = [n for n in K.loop_body_nodes(loop)
+                   if n.kind == 'stmt' and isinstance(n.ast, ast.Assign) and
+                   any(isinstance(t, ast.Name) and t.id == pname
+                       for t in n.ast.targets)]
+        ctx.ob('C11.2', func, rebinds[0] if rebinds else loop, not rebinds,
+               'the presence stamp (%s) is read once per server and not '
+               'rebound inside the walk over its records' % pname,
+               construct='presence stamp fixed during the walk')
     # presence_time / placement_time definitions
     for name, want in ((pname, 'presence_node'), (tname, 'appnode')):
         leaves = M.leaf_defs(defs, name)
@@ -717,6 +730,15 @@ def check(ctx):
     with ctx.shared({'C08': 'C11.2'}):
         c08._leaf_ignores_state(ctx)
     _load_everything(ctx, loader)
+    # shared with C01.6 / C03.2: the verbatim restore ignores the lease
+    # completely (neutralised before the leaf placement and not set again
+    # before it) - a restore that re-checks "what is left of the lease"
+    # drops a recorded instance whenever the server's lifetime was shortened
+    # between the placement and the fail-over
+    from . import c01
+    with ctx.shared({'C01': 'C11.2'}):
+        _nz1, srv1, _n1, put1, _r1, _p1 = c01._roles(ctx)
+        c01._restore(ctx, srv1, put1, rule='C11.2')
     found = _verbatim(ctx, loader)
     if found is None:
         return
